@@ -67,11 +67,12 @@ def cfg(impl, maxops, record, getters, labels, populated=True, tags="{1}", props
 _COVL = re.compile(r"^<(\w+) line (\d+), col \d+ to line \d+, col \d+ of module StateHeap(?: \((\d+) \d+ \d+ \d+\))?>: (\d+):(\d+)")
 
 
-def action_coverage(stdout):
+def action_coverage(res):
     """TLC attributes an action whose body is `\\E .. : Step(..)` to Step with the location of the call in
     parentheses; map those back to the enclosing definition by line number."""
     defs = []
-    with open(os.path.join(tlc.SPECS, "StateHeap.tla")) as f:
+    stdout = res.stdout
+    with open(os.path.join(res.workdir, "StateHeap.tla")) as f:   # the copy TLC actually ran on
         for n, ln in enumerate(f, 1):
             m = re.match(r"^(\w+)\s*==", ln)
             if m:
@@ -757,8 +758,8 @@ def component_part(ck) -> dict:
             if r.status != "ok":
                 raise RuntimeError(f"StateHeap.tla: {r.violated} violated in run {name} (the intended semantics must satisfy "
                                    f"its own properties): {[fmt(s['last']) for _, s in r.error_trace if 'last' in s]}")
-        cov = action_coverage(runs["intended_full"].stdout)
-        cov_impl = action_coverage(runs["impl_reach"].stdout)
+        cov = action_coverage(runs["intended_full"])
+        cov_impl = action_coverage(runs["impl_reach"])
         never = [a for a in ACTIONS if cov.get(a, (0, 0))[1] == 0 and cov_impl.get(a, (0, 0))[1] == 0]
         if never:
             raise RuntimeError(f"vacuous model: actions never taken: {never}")
